@@ -108,7 +108,15 @@ structure PathRule where
   isPrefix : Bool
   hasSW : Bool
   perms : Perms
+  expiration : Option Int := none     -- `PathRules.Expiration`, seconds; `none` = the zero `time.Time`
   deriving DecidableEq, Repr
+
+/-- `!exp.IsZero() && now.After(exp)` — the test `NewACL` applies to every stanza (for `parsePaths`, which has no
+`IsZero` guard, `none` stands for "no `expiration` key") -/
+def expiredAt (now : Int) (exp : Option Int) : Bool :=
+  match exp with
+  | none => false
+  | some t => decide (now > t)
 
 /-- `nil` entries of the policy slice are `none` -/
 structure Policy where
@@ -127,6 +135,7 @@ structure SrcRule where
   denied : Option PMap := none
   required : List String := []
   pag : Int := 0
+  expiration : Option Int := none  -- `expiration = "<absolute time>"`, seconds
   deriving Repr
 
 inductive ParseErr where
@@ -193,21 +202,24 @@ def parseRule (r : SrcRule) : Except ParseErr PathRule :=
   | .ok caps =>
     match parsePerms r caps with
     | .error e => .error e
-    | .ok perms => .ok { path := if strip then p.dropLast else p, isPrefix := strip, hasSW, perms }
+    | .ok perms =>
+      .ok { path := if strip then p.dropLast else p, isPrefix := strip, hasSW, perms, expiration := r.expiration }
 
-/-- the stanzas of one policy in order; the first error fails the whole policy -/
-def parseRules : List SrcRule → Except ParseErr (List PathRule)
+/-- the stanzas of one policy in order; a stanza already expired at parse time (`parseNow`) is skipped before any
+of its other fields is looked at ("If this path is expired, ignore it"); the first error fails the whole policy -/
+def parseRules (parseNow : Int) : List SrcRule → Except ParseErr (List PathRule)
   | [] => .ok []
   | r :: rs =>
+    if expiredAt parseNow r.expiration then parseRules parseNow rs else
     match parseRule r with
     | .error e => .error e
     | .ok pr =>
-      match parseRules rs with
+      match parseRules parseNow rs with
       | .error e => .error e
       | .ok prs => .ok (pr :: prs)
 
-def parsePolicy (name : String) (rs : List SrcRule) : Except ParseErr Policy :=
-  match parseRules rs with
+def parsePolicy (parseNow : Int) (name : String) (rs : List SrcRule) : Except ParseErr Policy :=
+  match parseRules parseNow rs with
   | .error e => .error e
   | .ok paths => .ok { name, paths }
 
@@ -225,7 +237,7 @@ def stanzaStable (r : SrcRule) : Bool :=
 
 /-- parsing the same policy text again yields the same stanzas -/
 def parseStable (rs : List SrcRule) : Bool :=
-  match parsePolicy "" rs with
+  match parsePolicy 0 "" rs with
   | .error _ => true
   | .ok _ => rs.all stanzaStable
 
@@ -291,7 +303,12 @@ inductive ACLErr where
   | rootWithOthers
   deriving DecidableEq, Repr
 
-def insertPolicy (n : Nat) (acc : Except ACLErr ACL) (p : Option Policy) : Except ACLErr ACL :=
+/-- one iteration of `for _, pc := range policy.Paths`: "Skip adding expired paths." The policy objects are parsed
+once and cached, so this test — evaluated every time an ACL is built — is what enforces `expiration` afterwards. -/
+def insertLive (now : Int) (a : ACL) (r : PathRule) : ACL :=
+  if expiredAt now r.expiration then a else insertRule a r
+
+def insertPolicy (n : Nat) (now : Int) (acc : Except ACLErr ACL) (p : Option Policy) : Except ACLErr ACL :=
   match acc, p with
   | .error e, _ => .error e
   | .ok a, none => .ok a
@@ -299,10 +316,11 @@ def insertPolicy (n : Nat) (acc : Except ACLErr ACL) (p : Option Policy) : Excep
     if p.name = "root" ∧ n ≠ 1 then .error .rootWithOthers
     else
       let a := if p.name = "root" then { a with root := true } else a
-      .ok (p.paths.foldl insertRule a)
+      .ok (p.paths.foldl (insertLive now) a)
 
-def newACL (ps : List (Option Policy)) : Except ACLErr ACL :=
-  ps.foldl (insertPolicy ps.length) (.ok {})
+/-- `NewACL` at the instant `now` (`time.Now()` inside the loop; one value for the whole call) -/
+def newACL (now : Int) (ps : List (Option Policy)) : Except ACLErr ACL :=
+  ps.foldl (insertPolicy ps.length now) (.ok {})
 
 /-! ### `CheckAllowedFromNonExactPaths` -/
 
